@@ -1286,25 +1286,32 @@ class Field(
             # --------------------------------------------------------
             flattened_data = data.flatten(range(data.ndim - 1))
 
-            # Try to get the counts from an auxiliary coordinate
-            # construct that spans the same axes as the field data
-            count = None
+            # Derive the count of each feature from the field data and
+            # from every metadata construct that spans the same axes
+            # in the same order (all of which are compressed with
+            # these counts), taking the largest, so that no
+            # non-missing value of any of them lies beyond the count.
+            count = _derive_count(flattened_data)
             data_axes = f.get_data_axes()
-            construct_axes = f.constructs.data_axes()
-            for key, c in (
-                f.auxiliary_coordinates().filter_by_data(todict=True).items()
-            ):
-                if construct_axes[key] != data_axes:
+            for key, c in f.constructs.filter_by_axis(
+                *data_axes, axis_mode="and", todict=True
+            ).items():
+                if f.get_data_axes(key) != data_axes:
                     continue
 
-                count = _derive_count(c.data.flatten(range(c.ndim - 1)))
-                break
+                c_data = c.get_data(None)
+                if c_data is None:
+                    continue
 
-            if count is None:
-                # When no auxiliary coordinate constructs span the
-                # field data dimensions, get the counts from the field
-                # data.
-                count = _derive_count(flattened_data)
+                count = [
+                    max(m, n)
+                    for m, n in zip(
+                        count,
+                        _derive_count(
+                            c_data.flatten(range(c_data.ndim - 1))
+                        ),
+                    )
+                ]
 
             N = sum(count)
             compressed_field_data = _empty_compressed_data(data, (N,))
